@@ -1510,7 +1510,8 @@ namespace avel {
         auto should_offset = abs(frac) >= vec4x32f{0.5f};
         auto ret = whole + keep(should_offset, offset);
 
-        return ret;
+        // the result carries the sign of the argument, also when it is zero (whole + 0.0 would turn -0.0 into +0.0)
+        return copysign(ret, v);
 
         /* Solution that works if the current rounding mode is set to nearest
          * Could potentially be used on older ARM implementations which don't support multiple rounding modes
